@@ -14,7 +14,7 @@ Record scase := mkSC {
   sc_roots : list wnode;              (* the object of obj.randomize[_with](), or the fields passed to vsc.randomize *)
   sc_inline : list stmt;              (* inline constraints of this call *)
   sc_before : list Z;                 (* per leaf: value before the call *)
-  sc_outcome : Z;                     (* 0 returned normally, 1 SolveFailure, 2 other exception *)
+  sc_outcome : Z;                     (* 0 returned normally, 1 SolveFailure, 2 other exception, 3 ZeroDivisionError (no verdict) *)
   sc_after : list Z;                  (* per leaf: value readable after the call *)
   sc_terms : list bvterm;             (* terms assumed before the first Sat() of each solver instance *)
   sc_vars : list nat;                 (* leaves that were presented to the solver as variables *)
@@ -142,12 +142,12 @@ Definition sat3 (c : scase) : Z :=
    4 a non-random field changed (C03) ; 8 outcome contradicts satisfiability or other exception (C02) ;
    16 variables / constants differ from the model's random flags (A3) ; 32 callbacks differ (C17) *)
 Definition s_check (c : scase) (do_sat : bool) : Z :=
-  let a := if (sc_outcome c =? 2) || terms_ok c then 0 else 1 in
+  let a := if (2 <=? sc_outcome c) || terms_ok c then 0 else 1 in
   let b := if sc_outcome c =? 0
            then (if hard_ok c (sc_after c) && types_ok c && enums_ok c then 0 else 2)
            else 0 in
   let f := if frame_ok c then 0 else 4 in
-  let o := if sc_outcome c =? 2 then (if all_wt c then 8 else 0)
+  let o := if sc_outcome c =? 2 then (if all_wt c && (negb do_sat || negb (sat3 c =? 2)) then 8 else 0)
            else if do_sat then
              match sat3 c with
              | 1 => if sc_outcome c =? 1 then 8 else 0
@@ -155,4 +155,4 @@ Definition s_check (c : scase) (do_sat : bool) : Z :=
              | _ => 0
              end
            else 0 in
-  a + b + f + o + (if (sc_outcome c =? 2) || flags_ok c then 0 else 16) + (if (sc_outcome c =? 2) || callbacks_ok c then 0 else 32).
+  a + b + f + o + (if (2 <=? sc_outcome c) || flags_ok c then 0 else 16) + (if (2 <=? sc_outcome c) || callbacks_ok c then 0 else 32).
